@@ -538,3 +538,20 @@ package input
 //@     invariant [nonnil] forall j int :: 0 <= j && j < len(errs) ==> errs[j] != nil
 //@     invariant [a @a] len(errs) == 0 ==> (forall j int :: 0 <= j && j < $i ==> apply(v.validators[j], m) == nil)
 //@     invariant [b @b] (forall j int :: 0 <= j && j < $i ==> apply(v.validators[j], m) == nil) ==> len(errs) == 0
+
+// ---- C13 / C11: generated method names G, GInContext, MustG, MustGInContext of accepted, non-todo services with
+// getters never collide with each other, with the API of the embedded *container.Container, or with its field name.
+// (ValidateServices accepts only if ValidateServiceGetter accepts every non-todo service: contract accept_sound above.)
+//@ lemma no_getter_collisions(s1 Service, s2 Service)
+//@   property C13 C11
+//@   requires ValidateServiceGetter(s1) == nil && ValidateServiceGetter(s2) == nil && s1.Getter != nil && s2.Getter != nil
+//@   ensures [runtime_api] let g = *s1.Getter ::
+//@        !isMethodOf(g, "github.com/gontainer/gontainer-helpers/v3/container.Container")
+//@     && !isMethodOf(g + "InContext", "github.com/gontainer/gontainer-helpers/v3/container.Container")
+//@     && !isMethodOf("Must" + g, "github.com/gontainer/gontainer-helpers/v3/container.Container")
+//@     && !isMethodOf("Must" + g + "InContext", "github.com/gontainer/gontainer-helpers/v3/container.Container")
+//@   ensures [cross_terms] let g = *s1.Getter :: let h = *s2.Getter ::
+//@        g != h + "InContext" && g != "Must" + h && g != "Must" + h + "InContext"
+//@     && g + "InContext" != "Must" + h && g + "InContext" != "Must" + h + "InContext" && "Must" + g != h + "InContext"
+//@   ensures [distinct_getters] *s1.Getter != *s2.Getter
+//@   ensures [embedded_field] *s1.Getter != "Container"
